@@ -453,6 +453,24 @@ func runC11(cfg config) {
 			depth = 6
 		}
 		t := c11Gen(r, depth)
+		if n%15 == 7 {
+			// a deep, narrow tree: k levels alternating function arguments, binary operators and member access around one
+			// atom (both renderings must compile however many levels the full one needs)
+			k := 6 + (n/15)%14
+			t = &c11Tree{kind: "atom", atom: pick(r, []string{"1", "true", "name", "$this"})}
+			for lvl := 0; lvl < k; lvl++ {
+				switch lvl % 4 {
+				case 0:
+					t = &c11Tree{kind: "invoke", name: pick(r, []string{"where", "select", "exists", "all"}), kids: []*c11Tree{{kind: "atom", atom: pick(r, []string{"name", "given", "Patient"})}, t}}
+				case 1:
+					t = &c11Tree{kind: "bin", op: pick(r, []int{1, 3, 11, 21, 22, 15}), kids: []*c11Tree{t, {kind: "atom", atom: pick(r, []string{"1", "2", "true"})}}}
+				case 2:
+					t = &c11Tree{kind: "call", name: "iif", kids: []*c11Tree{{kind: "atom", atom: "true"}, t}}
+				default:
+					t = &c11Tree{kind: "bin", op: pick(r, []int{2, 4, 12, 24}), kids: []*c11Tree{{kind: "atom", atom: "2"}, t}}
+				}
+			}
+		}
 		tmin, tfull := t.renderMin(0), t.renderFull()
 		smin, sfull := c11Text(tmin, space), c11Text(tfull, space)
 		emin, dmin, okmin := compile(smin)
